@@ -228,14 +228,11 @@ func driveH2C(c *ctx) {
 			xmd(dst, randBytes(rng, rng.Intn(100)), n, false)
 		}
 	}
-	// every message length 0..300 against tags of 1, 16, 49, 255 and 256 (hashed down to 32) bytes: msg_prime crosses every block,
+	// every message length 0..700 against tags of 1, 16, 49, 255 and 256 (hashed down to 32) bytes: msg_prime crosses every block,
 	// buffer and power-of-two boundary at exactly one message length per tag
 	for _, dl := range []int{1, 16, 49, 255, 256} {
 		dst := randBytes(rng, dl)
-		for ml := 0; ml <= 300; ml++ {
-			if !c.thorough() && dl != 49 && ml%2 == 1 && (ml < 120 || ml > 200) {
-				continue
-			}
+		for ml := 0; ml <= 700; ml++ { // round 9: up to 700 and every length for every tag (a 512-byte scratch buffer has its boundary near 400)
 			m := randBytes(rng, ml)
 			xmd(dst, m, 96, false)
 			if dl == 49 || (dl == 1 && ml >= 120 && ml <= 200) || c.thorough() {
